@@ -36,11 +36,11 @@ OWN = {"C06": {"PrefixAlways", "CompleteAtClose", "ByteExact"},
        "C07": {"PlainInOrder", "PlainComplete", "SegIndepTls"},
        "C08": {"PlainInOrder", "PlainComplete"},      # a valid request line reaches the inner protocol intact through the TLS layer
        "C15": {"HsTimerWhileHandshaking", "HsTimeoutCloses", "ClosedAfterCloseNotify"},
-       "C20": {"InnerOnlyAfterHandshake", "NoPlainBeforeTls"}}
+       "C20": {"InnerOnlyAfterHandshake", "NoPlainBeforeTls", "OnlyTlsOnWire"}}
 DEVS = {"C01": {},
         "C06": {"DevSingleSendCall": ["CompleteAtClose"]}, "C07": {"DevReadOnceAfterHandshake": ["PlainComplete"]},
         "C08": {"DevReadOnceAfterHandshake": ["PlainComplete"]},
-        "C15": {"DevNoHsTimer": ["HsTimerWhileHandshaking"]}, "C20": {}}
+        "C15": {"DevNoHsTimer": ["HsTimerWhileHandshaking"]}, "C20": {"DevPlainTimeoutReply": ["OnlyTlsOnWire"]}}
 HS_TIMEOUT = 10.0
 HEADER = b"20 application/octet-stream\r\n"
 REQ = b"gemini://localhost/x\r\n"
@@ -53,6 +53,19 @@ def body_of(n):
         return b""
     block = bytes((i * 131 + 7) % 251 for i in range(4099))     # period not a multiple of any record size
     return (block * (n // len(block) + 1))[:n]
+
+
+def wire_is_tls(w):
+    """Everything the server put on the TCP connection is a sequence of TLS records (a trailing partial record is allowed)."""
+    i = 0
+    while i < len(w):
+        if len(w) - i < 5:
+            return w[i] in (20, 21, 22, 23)
+        typ, major, ln = w[i], w[i + 1], int.from_bytes(w[i + 3:i + 5], "big")
+        if typ not in (20, 21, 22, 23) or major != 3 or ln > 16384 + 2048:
+            return False
+        i += 5 + ln
+    return True
 
 
 class Inner(GeminiServerProtocol):
@@ -177,7 +190,7 @@ class PumpHarness:
         timers = self.loop.pending_timers()
         return {"innerUp": self.inner_created > 0, "plainIn": self.plain_in, "clientGot": len(self.cl.plain),
                 "closeNotify": bool(self.cl.eof), "tcp": "closed" if self.tr.lost else ("closing" if self.tr.closing else "open"),
-                "hsTimer": any(abs(t - (self.t0 + HS_TIMEOUT)) < 1e-6 for t in timers)}
+                "hsTimer": any(abs(t - (self.t0 + HS_TIMEOUT)) < 1e-6 for t in timers), "rawOut": not wire_is_tls(bytes(self.tr.wire))}
 
     def close(self):
         try:
@@ -199,7 +212,7 @@ class PumpHarness:
 
 def model_projection(st):
     return {"innerUp": st["innerUp"], "plainIn": st["plainIn"], "clientGot": st["clientGot"], "closeNotify": st["closeNotify"],
-            "tcp": st["tcp"], "hsTimer": st["hsTimer"] == "armed"}
+            "tcp": st["tcp"], "hsTimer": st["hsTimer"] == "armed", "rawOut": st["rawOut"]}
 
 
 def plain(x):
@@ -232,6 +245,8 @@ def judge(obs_seq, acts, items, reply, h):
             bad.add("InnerOnlyAfterHandshake")
         if o["plainIn"] > 0 and n_hs < 2:
             bad.add("NoPlainBeforeTls")
+        if o["rawOut"]:
+            bad.add("OnlyTlsOnWire")
         if o["plainIn"] > app_fed:
             bad.add("PlainInOrder")
         if o["innerUp"] and o["tcp"] == "open" and o["plainIn"] != app_fed and not junk:
